@@ -39,9 +39,21 @@ Record event := { e_name : bytes; e_time : N; e_attrs : list kv; e_dropped : nat
     span context), [l_ts] whether it carries a non-empty tracestate. *)
 Record link := { l_ctx : N; l_ts : bool; l_attrs : list kv; l_dropped : nat }.
 
+(** The options given to Tracer.Start that seed the span: WithAttributes
+    (all options concatenated), WithLinks (context tag, tracestate flag,
+    attributes), WithTimestamp (an instant in ns; 0 = not given, the wall clock
+    is used and not compared), WithSpanKind (the raw number). *)
+Record start_opts := {
+  so_attrs : list kv;
+  so_links : list (N * bool * list kv);
+  so_start : N;
+  so_kind : N
+}.
+
 (** The calls of the property.  [ORecordError typ msg] stands for
     RecordError(err) where [typ] is the Go type string of err and [msg] its
-    Error() text; status codes: 0 Unset, 1 Error, 2 Ok. *)
+    Error() text; status codes: 0 Unset, 1 Error, 2 Ok.  [OEnd ts] is
+    End(WithTimestamp(ts)), [OEnd 0] is End() (wall clock, not compared). *)
 Inductive op :=
 | OSetAttrs (kvs : list kv)
 | OAddEvent (name : bytes) (ts : N) (kvs : list kv)
@@ -49,7 +61,7 @@ Inductive op :=
 | OAddLink (ctx : N) (has_ts : bool) (kvs : list kv)
 | OSetStatus (code : N) (desc : bytes)
 | OSetName (name : bytes)
-| OEnd.
+| OEnd (ts : N).
 
 (** What a span processor / exporter can read from the ended span. *)
 Record export := {
@@ -60,7 +72,10 @@ Record export := {
   x_events : list event;
   x_evdropped : nat;
   x_links : list link;
-  x_lkdropped : nat
+  x_lkdropped : nat;
+  x_kind : N;    (* SpanKind *)
+  x_start : N;   (* StartTime: the supplied instant, 0 when the wall clock was used *)
+  x_end : N      (* EndTime: likewise *)
 }.
 
 (** ** Attributes: ordered map with bounded insertion *)
@@ -165,14 +180,34 @@ Definition name_of (name0 : bytes) (ops : list op) : bytes :=
 Fixpoint before_end (ops : list op) : list op :=
   match ops with
   | [] => []
-  | OEnd :: _ => []
+  | OEnd _ :: _ => []
   | o :: r => o :: before_end r
   end.
 
-(** ** The exported span as a function of the calls *)
+(** ** Start options *)
 
-Definition run_spec (lim : limits) (name0 : bytes) (ops : list op) : export :=
-  let l := before_end ops in
+(** SpanKind validation: Internal 1, Server 2, Client 3, Producer 4, Consumer 5;
+    anything else (Unspecified 0, unknown numbers) becomes Internal. *)
+Definition kind_of (k : N) : N := if (1 <=? k) && (k <=? 5) then k else 1.
+
+(** Starting a span with options is making these calls first: one AddLink per
+    link (same rules: ignored empty link, per-link cap, link limit), then one
+    SetAttributes with all start attributes (same bounded insertion). *)
+Definition start_ops (so : start_opts) : list op :=
+  map (fun l => let '(c, ts, a) := l in OAddLink c ts a) (so_links so) ++ [OSetAttrs (so_attrs so)].
+
+(** The instant given to the first End (0: none given, or never ended by the program). *)
+Fixpoint end_time_of (ops : list op) : N :=
+  match ops with
+  | [] => 0
+  | OEnd ts :: _ => ts
+  | _ :: r => end_time_of r
+  end.
+
+(** ** The exported span as a function of the start options and the calls *)
+
+Definition run_spec (lim : limits) (so : start_opts) (name0 : bytes) (ops : list op) : export :=
+  let l := start_ops so ++ before_end ops in
   let a := spec_attrs (lim_len lim) (lim_attrs lim) (offers_of l) in
   let e := bounded (lim_events lim) (events_of lim l) in
   let k := bounded (lim_links lim) (links_of lim l) in
@@ -180,7 +215,8 @@ Definition run_spec (lim : limits) (name0 : bytes) (ops : list op) : export :=
      x_status := status_of l;
      x_attrs := fst a; x_dropped := snd a;
      x_events := fst e; x_evdropped := snd e;
-     x_links := fst k; x_lkdropped := snd k |}.
+     x_links := fst k; x_lkdropped := snd k;
+     x_kind := kind_of (so_kind so); x_start := so_start so; x_end := end_time_of ops |}.
 
 (** ** Closed forms (what the laws are stated against) *)
 
